@@ -843,6 +843,7 @@ class TestRun(object):
         self.stamps = []                # (digest, addr, bytes) host writes, for the reference
         self.cp_digests = []            # digests of all control points (host-write mode)
         self.fault_stops = 0
+        self.mbps = []                  # active memory breakpoints (addr, size, access)
         self.pending_fault = None
         self.last_exec_pc = None
         self.j = None
@@ -992,6 +993,21 @@ class TestRun(object):
             self.log.add(" act", k, cb)
         elif k == "hw":
             # host write: ["hw", target, offset, bytes]
+            if a[2] == "reload":
+                # the host rewrites the whole code page (as a loader re-mapping an image would), one
+                # immediate byte of one cell differing: a single write that covers all translated code
+                cells = sorted(v for n, v in self.prog.labels.items() if n.startswith("cell"))
+                if not cells:
+                    return False
+                size = len(self.prog.code) + 32
+                page = bytearray(j.vm.get_mem(CODE, size))
+                off = cells[a[3] % len(cells)] + 1 + (a[3] // 7) % 4 - CODE
+                page[off] = a[4][0]
+                j.vm.set_mem(CODE, bytes(page))
+                self.stamps.append((self.cur_digest, CODE, bytes(page)))
+                self.probe("host_write_reload")
+                self.log.add(" act hw reload", hex(CODE + off), "%02x" % a[4][0])
+                return False
             if a[2] == "data":
                 addr = D0 + 0x300 + (a[3] % 0x40)
             else:
@@ -1029,6 +1045,27 @@ class TestRun(object):
             j.vm.set_mem_access(page, self.j_perm[page])
             self.probe("fault_injected_perm")
             self.log.add(" act perm", hex(page), a[3] % 3)
+        elif k == "mbp":
+            # memory breakpoint: ["mbp", where, size, access(1 read, 2 write, 3 both)]
+            spots = [D0, D0 + 0x8, D0 + 0x21, D0 + 0x40, D1 + 0x4, D1 - 1, D1 + 0x7c, D0 + 0x200, STACK_BASE + STACK_SIZE - 8]
+            addr = spots[a[2] % len(spots)]
+            size = [1, 2, 4, 8][a[3] % 4]
+            access = [1, 2, 3][a[4] % 3]
+            j.vm.add_memory_breakpoint(addr, size, access)
+            self.mbps.append((addr, size, access))
+            self.events.append((self.cur_tick, self.cp, "mbp_add", addr, size, access))
+            self.probe("memory_breakpoint_added")
+            self.log.add(" act mbp", hex(addr), size, access)
+        elif k == "mbp_rm":
+            if not self.mbps:
+                return False
+            addr, size, access = self.mbps.pop(a[2] % len(self.mbps))
+            j.vm.remove_memory_breakpoint(addr, access)
+            # remove_memory_breakpoint drops every watch with that address and access
+            self.mbps = [m for m in self.mbps if not (m[0] == addr and m[2] == access)]
+            self.events.append((self.cur_tick, self.cp, "mbp_rm", addr, size, access))
+            self.probe("memory_breakpoint_removed")
+            self.log.add(" act mbp_rm", hex(addr), access)
         elif k == "restart":
             self.want_restart = a[2]
             self.probe("restart_requested")
@@ -1071,6 +1108,18 @@ class TestRun(object):
     def end_cb(self, jitter):
         self.ended = True
         return False
+
+    def on_membp(self, jitter):
+        """Exception handler for EXCEPT_BREAKPOINT_MEMORY: a control point of its own."""
+        c = self.e.csts
+        self.control_point("membp", jitter)
+        self.events.append((self.cur_tick, self.cp, "mbp_hit", jitter.pc, None, None))
+        self.probe("memory_breakpoint_hit")
+        # clean-up idiom of miasm's own memory-breakpoint handlers (test/jitter/mem_breakpoint.py):
+        # clear the flag and the access log, otherwise the logged access raises the breakpoint again
+        jitter.vm.set_exception(jitter.vm.get_exception() & ~c.EXCEPT_BREAKPOINT_MEMORY)
+        jitter.vm.reset_memory_access()
+        return True
 
     def on_fault(self, jitter):
         """Exception handler for EXCEPT_ACCESS_VIOL: the fault stop."""
@@ -1117,6 +1166,9 @@ class TestRun(object):
         j.exec_cb = self.exec_cb
         j.add_breakpoint(self.prog.end, self.end_cb)
         j.add_exception_handler(c.EXCEPT_ACCESS_VIOL, self.on_fault)
+        j.add_exception_handler(c.EXCEPT_BREAKPOINT_MEMORY, self.on_membp)
+        for addr, size, access in self.mbps:
+            j.vm.add_memory_breakpoint(addr, size, access)
         for addr, cbs in self.bp_model.items():
             for cb in cbs:
                 j.add_breakpoint(addr, self.callbacks[cb])
@@ -1289,4 +1341,50 @@ def expected_breakpoint_hits(ref, events, end_addr):
     if hit_i != len(hits):
         h = hits[hit_i]
         return False, "extra-hit", "callback %d invoked at pc %#x (tick %s) outside any arrival" % (h[4], h[3], h[0])
+    return True, None, None
+
+
+def expected_memory_breakpoints(ref, events):
+    """Memory-breakpoint hits expected from the reference access log.  A watch registered at tick t is in
+    force for the instruction of tick t; an instruction that touches a watched byte with a watched kind of
+    access raises the breakpoint once it has retired, i.e. the run stops in the reference state of tick t+1.
+    Returns (ok, class, message)."""
+    evs = sorted(events, key=lambda x: x[1])
+    acts = {}
+    for ev in evs:
+        if ev[2] in ("mbp_add", "mbp_rm"):
+            acts.setdefault(ev[0], []).append(ev)
+    hits = [ev[0] for ev in evs if ev[2] == "mbp_hit"]
+    active = []
+    expected = []
+    fuzzy = set()          # ticks at which a watch was (un)registered: a pending hit may be raised right there
+    for t in range(ref.ticks):
+        for ev in acts.get(t, ()):
+            fuzzy.add(t)
+            fuzzy.add(t + 1)
+            if ev[2] == "mbp_add":
+                active.append((ev[3], ev[4], ev[5]))
+            else:
+                active = [m for m in active if not (m[0] == ev[3] and m[2] == ev[5])]
+        if t >= len(ref.acc):
+            break
+        hit = False
+        for kind, addr, size in ref.acc[t]:
+            for waddr, wsize, wacc in active:
+                if (wacc & (1 if kind == "r" else 2)) and addr < waddr + wsize and waddr < addr + size:
+                    hit = True
+        if hit:
+            expected.append(t + 1)
+    exp = [t for t in expected if t not in fuzzy]
+    got = [t for t in hits if t not in fuzzy]
+    # several accesses of one instruction raise one hit; a hit is reported once per tick
+    got_set, exp_set = sorted(set(got)), sorted(set(exp))
+    if got_set != exp_set:
+        missing = [t for t in exp_set if t not in got_set]
+        extra = [t for t in got_set if t not in exp_set]
+        if missing:
+            t = missing[0]
+            return False, "membp-missing", "the instruction at %#x (tick %d) accesses a watched range but no memory breakpoint was raised after it" % (ref.pcs[t - 1], t - 1)
+        t = extra[0]
+        return False, "membp-extra", "memory breakpoint raised at tick %d (pc %#x) although the previous instruction touches no watched byte" % (t, ref.pcs[t] if t < len(ref.pcs) else 0)
     return True, None, None
